@@ -47,7 +47,7 @@ m = {"version": 1,
                  {"name": "extra-behaviours", "path": "/verif/check EXTRA", "serves_properties": [],
                   "kind_free_text": "same pipeline for behaviour beyond the listed properties (spec/PuanExtra.tla): short forms, listings, reduced polyhedra, row distributions, neighbourhoods, reduce2d/ranking, misc helpers, constructor validation; reports EXTRA-BEHAVIOUR lines, never VIOLATION"},
                  {"name": "selftest", "path": "/verif/check SELFTEST", "serves_properties": [],
-                  "kind_free_text": "binding demonstration: 41 single-field corruptions of recorded events must be rejected by TLC with the expected clause, the unchanged events accepted"}],
+                  "kind_free_text": "binding demonstration: 43 single-field corruptions of recorded events must be rejected by TLC with the expected clause, the unchanged events accepted"}],
      "checks": checks, "not_applicable": na,
      "notes": "exit codes: 0 held, 1 VIOLATION, 2 machinery failure. Known findings: /verif/known_findings.jsonl. Seeded changes used to test the checks: /verif/seeded/."}
 json.dump(m, open(f"{V}/MANIFEST.json", "w"), indent=1)
